@@ -25,14 +25,17 @@ def build(pkg: str):
     fcntl.flock(lock, fcntl.LOCK_EX)
     try:
         t = time.time()
-        run(["cargo", "build", "--offline", "-j", "14", "-p", pkg, "--target-dir", TARGET], cwd=os.path.join(VERIF, "driver"), timeout=3600)
+        # always the whole workspace in ONE invocation: cargo unifies features across the packages it builds together
+        # (aiken-project turns on serde_json/preserve_order), so building single packages alternately would recompile
+        # the shared dependencies every time
+        run(["cargo", "build", "--offline", "-j", "14", "--workspace", "--target-dir", TARGET], cwd=os.path.join(VERIF, "driver"), timeout=7200)
         dt = time.time() - t
         if dt > 5:
-            log(f"[driver] built {pkg} in {dt:.0f}s")
+            log(f"[driver] built the driver workspace in {dt:.0f}s")
     finally:
         fcntl.flock(lock, fcntl.LOCK_UN)
         lock.close()
-    _built.add(pkg)
+    _built.update(("drv-uplc", "drv-lang", "drv-project"))
 
 
 class DriverError(Exception):
